@@ -166,6 +166,17 @@ def check_property(pid, tier, seed, write_evidence=True):
 
     lines, violations = [], []
     standins = []
+    pre_run = {}
+    if "differential" in P.get("bounded", []):
+        # checker assumption first: where the rewritten body does not behave like the original on concrete inputs, the
+        # deductive verdicts for the current shape of the code are not trusted -> undecided, the stand-ins decide
+        from checklib.bounded import BOUNDED as _B
+
+        tb0 = time.time()
+        br = _B["differential"](seed, thorough=(tier == "thorough"))
+        pre_run["differential"] = (br, round(time.time() - tb0, 2))
+        for dv in br.get("divergences", [])[:3]:
+            errors.append((("contracts.differential", "RewriteDifferential", ()), "checker assumption refuted for the current code shape (verdicts not trusted): " + "; ".join(dv.get("violations", []))[:300]))
     need_harness = bool(refuted or undecided or errors) or P.get("standin_always", False) or bool(open_findings(pid))
     hres = None
     if P.get("harness") and need_harness:
@@ -188,6 +199,10 @@ def check_property(pid, tier, seed, write_evidence=True):
         tb0 = time.time()
         # an obligation that no longer proves (undecided) or a function the contract cannot bind to is never a violation by
         # itself; the bounded stand-ins of the property then run at their thorough size
+        if bname in pre_run:
+            br, secs_ = pre_run[bname]
+            extra.append(dict(name=bname, bounded=True, bound=br["bound"], runs=br["cases"], violations=[], divergences=len(br.get("divergences", [])), skipped_functions=br.get("skipped", []), known={}, seconds=secs_, samples=[]))
+            continue
         br = BOUNDED[bname](seed, thorough=(tier == "thorough" or bool(undecided) or bool(errors)))
         # a bounded check may serve several properties: keep the violations tagged for this one (untagged: all)
         mine = []
